@@ -755,6 +755,8 @@ pub fn cmd_batch(args: &[String]) -> i32 {
 
     let ps = ProbeSpace::new(&b.reg);
     let mut exit_code = 0;
+    // the exotic lane: Decomposed over types from outside cgmath (fixed enumeration, no PRNG)
+    let exotic = crate::exotic::run_all(None);
 
     // harness errors first: nothing else is believed if the simulator itself is broken
     if !agg.harness_errors.is_empty() {
@@ -869,6 +871,45 @@ pub fn cmd_batch(args: &[String]) -> i32 {
         }
     }
 
+    if exit_code == 0 {
+        // one report per (case, assertion): the first failing scenario
+        let mut seen: Vec<(String, &'static str)> = Vec::new();
+        for f in &exotic.failures {
+            if seen.iter().any(|(c, a)| *c == f.case && *a == f.assert_id) {
+                continue;
+            }
+            seen.push((f.case.clone(), f.assert_id));
+            if seen.len() > 8 {
+                break;
+            }
+            let tag: String = f.case.chars().map(|c| if c.is_ascii_alphanumeric() { c } else { '_' }).collect();
+            let path = format!("{}/C20-{}-exotic-{}-{}.json", replay_dir, build_config(), tag, f.assert_id);
+            let doc = json!({
+                "property": PROPERTY,
+                "build_configuration": build_config(),
+                "lane": "exotic",
+                "case": f.case,
+                "scenario": f.scenario,
+                "assert_id": f.assert_id,
+                "observed": f.observed,
+                "how_to_replay": format!("/verif/check C20 --replay {}", path),
+            });
+            let exe = std::env::current_exe().unwrap();
+            let ok = std::fs::write(&path, serde_json::to_string_pretty(&doc).unwrap()).is_ok()
+                && matches!(std::process::Command::new(exe).arg("replay").arg(&path).output(), Ok(o) if o.status.code() == Some(1));
+            if ok {
+                violations += 1;
+                violation_lines.push(format!(
+                    "VIOLATION property={} replay={}  [{} on Decomposed with {} (exotic lane, {} build): {}: {}]",
+                    PROPERTY, path, f.assert_id, f.case, build_config(), f.scenario, f.observed
+                ));
+            } else {
+                println!("HARNESS-ERROR exotic failure {} / {} does not replay", f.case, f.scenario);
+                exit_code = 2;
+            }
+        }
+    }
+
     // probes that never fired: the workload must change, the result is not trusted
     let mut zero_probes = Vec::new();
     for (i, n) in agg.probes.iter().enumerate() {
@@ -952,6 +993,13 @@ pub fn cmd_batch(args: &[String]) -> i32 {
             "probe_every_type_fault_free_round_trip_min_count": type_probe_min,
             "types_driven": b.reg.iter().map(|e| e.name.clone()).collect::<Vec<_>>(),
             "runs_per_type_family": agg.per_family,
+            "exotic_lane": {
+                "what": "Decomposed<V, R> with V / R from outside cgmath (std types, tuples, arrays, options, a user enum, a user vector space, a struct whose field names collide with scale/rot/disp, a nested Decomposed): every order, omission, unknown key, single write fault, single read error on five medium configurations, plus serde_json incl. every truncation; fixed enumeration",
+                "cases": exotic.cases,
+                "evaluations": exotic.evaluations,
+                "failures": exotic.failures.len(),
+                "case_names": exotic.case_names,
+            },
             "batch_digest": format!("{:016x}", agg.digest),
             "real_components": ["cgmath Serialize/Deserialize impls (hand-written Decomposed impl in src/transform.rs + serde_derive output for every other type), built from /repo's working tree with feature serde", "serde / serde_core / serde_derive 1.0.229"],
             "stub_components": ["SimStore (serde::Serializer) and SimSource (serde::Deserializer): the simulated medium, /verif/sim/src/{store,source}.rs", "fault plans and seeded generator, /verif/sim/src/gen.rs", "reference model: Shape + leaf bits built and read through public fields and constructors only, /verif/sim/src/subject.rs"],
@@ -1027,6 +1075,21 @@ pub fn cmd_replay(args: &[String]) -> i32 {
             }
         }
         println!("NOT-REPRODUCED no run in 0..={} fails {} when executed sequentially on this tree", upto, want_id);
+        return if exact { 2 } else { 0 };
+    }
+    if doc["lane"].as_str() == Some("exotic") {
+        let case = doc["case"].as_str().unwrap_or("");
+        let scen = doc["scenario"].as_str().unwrap_or("");
+        let rep = crate::exotic::run_all(Some(case));
+        for f in &rep.failures {
+            if f.assert_id == want_id && (f.scenario == scen || !exact) {
+                println!("exotic replay: {} / {}: {} {}", f.case, f.scenario, f.assert_id, f.observed);
+                println!("REPRODUCED assert={}", f.assert_id);
+                println!("VIOLATION property={} replay={}", PROPERTY, path);
+                return 1;
+            }
+        }
+        println!("NOT-REPRODUCED exotic case {:?} passes on this tree ({} evaluations)", case, rep.evaluations);
         return if exact { 2 } else { 0 };
     }
     if doc["lane"].as_str() == Some("concurrent") {
